@@ -45,13 +45,15 @@ func registerCore(e *Engine) {
 	// a feasibility query (the constraint on a fresh variable is satisfiable).
 	e.Register("verif:verifBigNN", func(fr *frame, args []value) value {
 		v := fr.i.ctx.NewVar(strArg(args[0]), IntSort)
-		fr.i.ctx.Constrain(Ge(v, IntConst64(0)))
+		fr.i.ctx.Constrain(newTerm(">=", BoolSort, v, IntConst64(0)))
+		v.WithNN()
 		var cell value = bigInt{v}
 		return &cell
 	})
 	e.Register("verif:verifBigPos", func(fr *frame, args []value) value {
 		v := fr.i.ctx.NewVar(strArg(args[0]), IntSort)
 		fr.i.ctx.Constrain(Gt(v, IntConst64(0)))
+		v.WithNN()
 		var cell value = bigInt{v}
 		return &cell
 	})
